@@ -257,6 +257,8 @@ def layers(tier):
                     'all pairs of tables with <= 2 rows over STR({a,b},%d) (%d scenarios), each in its '
                     'own characters, packed %d per call' % (3, nsc, per),
                     min_nontrivial=100, chunksize=2))
+    from checks.configx import config_layer
+    Ls.append(config_layer(['C03'], quick))
     return Ls
 
 
